@@ -132,7 +132,7 @@ def write_baseline(prop, all_obs, results):
       names[o['name']] = names.get(o['name'], 0) + 1
   os.makedirs(os.path.join(VERIF, 'baseline'), exist_ok=True)
   with open(os.path.join(VERIF, 'baseline', '%s.json' % prop), 'w') as f:
-    json.dump({'property': prop, 'obligations': names,
+    json.dump({'property': prop, 'obligations': names, 'all_names': sorted(set(o['name'] for o in all_obs)),
                'units': {r['unit']: r.get('sha') for r in results}}, f, indent=1, sort_keys=True)
 
 
@@ -193,11 +193,12 @@ def main(argv=None):
     for o in unknown:
       bad_names.setdefault(o['name'], []).append(o)
     for name_, obs in bad_names.items():
-      if obs[0]['kind'] == 'exc' and '/exc.unexpected.' in name_ and name_ not in baseline.get('obligations', {}):
-        # an exceptional exit that does not exist on the baseline tree and that the solvers cannot show unreachable
+      if name_ not in baseline.get('obligations', {}) and name_ not in baseline.get('all_names', [name_]):
+        # an obligation that does not exist on the baseline tree (new call site / new exceptional exit introduced by
+        # the change) and that no back end can discharge
         o = dict(obs[0])
         o['status'] = 'sat'
-        o['regression'] = 'undeclared exception escapes on a path that does not exist on the baseline tree; reachability not refuted (solver: unknown)'
+        o['regression'] = 'obligation does not exist on the baseline tree and is not provable (solver: unknown)'
         o['info'] = dict(o['info'], msg=o['info'].get('msg', '') + ' -- ' + o['regression'])
         regressed.append(o)
         continue
